@@ -38,18 +38,49 @@ DOCS = [
     ({'k1': 1, 'k2': [1, 2, 3], 'k3': 'abc', 'k4': {'x': 1}, 'k6': True}, {'k1': 2, 'k2': [1, 3], 'k3': 'abd', 'k7': [None]}),
     ([1, 'two', [3, {'a': 'b'}]], [1, 'too', [{'a': 'c'}, 4], 5]),
     ('some text', 'same text'),
+    # non-string mapping keys (expressible in YAML and pickle only; other types get the string-keyed variant)
+    ({80: 'http', True: 'enabled', 1.5: 'x', 'plain': 1}, {80: 'https', False: 'enabled', 2.5: 'x', 'plain': 2}),
+    ({'e': {}, 'l': [], 's': '', 'n': None, 'deep': [[], [{}]]}, {'e': [], 'l': {}, 's': 'x', 'deep': [[{}], []]}),
+    ({'t': 'line1\nline2', 'x': '<a&b>"q"', 'u': '\u00e9\u4e2d'}, {'t': 'line1\nline3\n', 'x': '<a&c>\'q\'', 'u': '\u00e8'}),
+    ({'i': -1, 'f': 1.5, 'big': 2 ** 40, 'b': False}, {'i': 1, 'f': -2.25, 'big': 2 ** 40 + 1, 'b': True}),
+    ({'colour': [1, 2], 'name': 'x', 'same': 'y'}, {'color': [1, 2], 'nome': 'x', 'same': 'y'}),
 ]
 XMLS = [
     ('<root a="1" b="2"><item id="1">one</item><item id="2">two</item><x/></root>',
      '<root a="1" c="3"><item id="1">uno</item><y k="v"/><item id="3">three</item></root>'),
     ('<a>text</a>', '<a><b/>more</a>'),
     ('<html><body><p class="x">hi</p></body></html>', '<html><body><p>ho</p><br/></body></html>'),
+    ('<r><item id="1"/><k/><m>gone</m></r>', '<r><item id="2">hello</item><k>t</k><m/></r>'),
+    ('<r><a><b><c>deep</c></b></a></r>', '<r><a/></r>'),
+    ('<r><t>line1\nline2</t><u> padded </u></r>', '<r><t>line1\nline3\nline4</t><u>padded</u></r>'),
+    ('<r a="1" b="2" c="3"/>', '<r a="1" b="3" d="4"/>'),
+    ('<r x="&lt;&amp;&quot;">a &amp; b &lt; c</r>', '<r x="&gt;&amp;">a &amp; b &gt; c</r>'),
 ]
 CSVS = [
     ('name,qty\napple,1\npear,2\nfig,3\n', 'name,qty\napple,1\nplum,2\n'),
     ('a\n', 'a,b\nc\n'),
     ('x,y\n1,2\n', 'x,y\n1,3\n'),
+    ('"q,1","say ""hi"""\n,\n', '"q,2","say ""ho"""\n,x\n'),
+    ('a,b,c\n1\n', 'a\n1,2,3\n'),
+    ('"multi\nline",z\n', '"multi\nlines",z\n'),
+    ('1,2\n3,4\n', '3,4\n1,2\n'),
+    ('\n\n', 'a\n'),
 ]
+
+
+PICKLE_DOCS = {
+    5: ({'b': b'ab', 't': (1, (2, 3)), 's': {1, 2}}, {'b': b'ac', 't': (1, (2, 4)), 's': {2, 3}}),
+    6: ([b'x', 'x', bytearray(b'xy'), complex(1, 2)], ['x', b'x', bytearray(b'xz'), complex(1, 3)]),
+    2: (b'some bytes', b'same bytes'),
+}
+
+
+def string_keys(v):
+    if isinstance(v, dict):
+        return {(k if isinstance(k, str) else 'k' + str(k)): string_keys(x) for k, x in v.items()}
+    if isinstance(v, list):
+        return [string_keys(x) for x in v]
+    return v
 
 
 def plist_safe(v):
@@ -67,6 +98,8 @@ def content(typ, which, side):
     if typ == 'csv':
         return CSVS[which][side]
     doc = DOCS[which][side]
+    if typ not in ('yaml', 'pickle'):
+        doc = string_keys(doc)
     if typ in ('json', 'json5'):
         return json.dumps(doc)
     if typ == 'yaml':
@@ -76,6 +109,8 @@ def content(typ, which, side):
         d = plist_safe(doc)
         return plistlib.dumps(d if isinstance(d, (dict, list)) else [d])
     if typ == 'pickle':
+        if which in PICKLE_DOCS:
+            return pickle.dumps(PICKLE_DOCS[which][side], protocol=4)      # Python-only values: bytes, tuple, set, complex
         return pickle.dumps(doc, protocol=2)
     raise ValueError(typ)
 
@@ -84,13 +119,17 @@ EXT = {'json': 'json', 'json5': 'json5', 'yaml': 'yml', 'csv': 'csv', 'xml': 'xm
 
 
 def configs(tier):
-    npairs = 1 if tier == 'quick' else 3
+    # document pair 0 (quick) / 0-2 (thorough) under the complete matrix; the other pairs, which target particular formatter
+    # branches, under every input type x output format x mode (colour/html/layout do not select formatter branches)
+    nfull = 1 if tier == 'quick' else 3
     for typ in TYPES:
         for fmt in (None,) + TYPES:
             for mode in MODES:
                 for rend in RENDER:
                     for lay in LAYOUT:
-                        for which in range(npairs):
+                        for which in range(len(DOCS)):
+                            if which >= nfull and (rend != RENDER[0] or lay != LAYOUT[0]) and not (tier != 'quick' and rend == RENDER[2] and lay == LAYOUT[0]):
+                                continue
                             for same in (False, True):
                                 yield {'type': typ, 'format': fmt, 'mode': mode, 'render': rend, 'layout': lay,
                                        'pair': which, 'identical': same}
